@@ -263,7 +263,7 @@ impl Check for C18 {
         "C18"
     }
     fn rule(&self) -> String {
-        "1-3 tables (ID INTEGER NOT NULL + 1-6 columns over SMALLINT, INTEGER, BIGINT, REAL, DOUBLE PRECISION, NUMERIC(p,s), DECIMAL(p,s), BOOLEAN, VARCHAR(n), CHAR(n), DATE, TIME, TIMESTAMP; 1 column in 8 of an \
+        "1-3 tables (ID INTEGER NOT NULL + 1-6 columns over SMALLINT, INTEGER, BIGINT, REAL, DOUBLE PRECISION, NUMERIC(p,s), DECIMAL(p,s) [as DataType::Decimal through Database::create_table: the parser reads DECIMAL as NUMERIC], BOOLEAN, VARCHAR(n), CHAR(n), DATE, TIME, TIMESTAMP; 1 column in 8 of an \
          'extended' type CREATE TABLE also accepts: FLOAT(p), TEXT, TIME/TIMESTAMP WITH TIME ZONE, INTERVAL DAY, labelled ext_type:*; optional NOT NULL / PRIMARY KEY (ID)), 0-3 index definitions (1-3 columns, ASC/DESC, \
          prefix length on string columns, UNIQUE on ID) created before, during or after the DML, and a history of multi-row INSERTs through the executor, rows stored through Database::insert_row (exactly typed; the only \
          way to store NaN, infinities and arbitrary f32/f64 bit patterns; labelled rows_via_insert_row), UPDATE and DELETE with predicates on ID. Values: i64 extremes and 2^53 neighbours, float specials and extremes, \
